@@ -43,5 +43,9 @@ using context_ptr = std::unique_ptr<context>;
 FTP_EXPORT
 context_ptr create_context(context::method method, bool ssl_session_resumption = false);
 
+/* Returns true if the SSL context was created with the SSL session resumption. */
+FTP_EXPORT
+bool is_session_resumption_enabled(context & ssl_context);
+
 } // namespace ftp::ssl
 #endif //LIBFTP_SSL_HPP
